@@ -109,12 +109,12 @@ def dump_and_model(prog, cfg, work, seeds, mode="both", timeout=900):
     if rc != 0:
         return dump, mod, "travmodel failed (rc %d): %s" % (rc, merr[-1500:])
     if "\nSTEPBAD " in mout and mode != "run":
-        # Does the implementation behave like the REPAIRED variant of addNext (proposed fix C07-accesspaths-dedup applied:
-        # access paths deduplicated + sorted)?  Then that variant of the model (Model/Visit.v, c_fixaps = true) is the tie.
-        rc2, mout2, _ = vlib.sh2([os.path.join(vlib.BIN, "travmodel"), "-fixaps", "-seeds", str(seeds), "-fuel", str(FUEL), "-mode", mode, dump],
+        # diagnosis only: does the implementation behave like the ORIGINALLY PINNED addNext (access paths as a list with
+        # duplicates, before fix d51dcca)?  The mismatches of the default (current) model are reported in any case.
+        rc2, mout2, _ = vlib.sh2([os.path.join(vlib.BIN, "travmodel"), "-oldaps", "-seeds", "1", "-fuel", str(FUEL), "-mode", "step", dump],
                                  timeout=timeout)
         if rc2 == 0 and "\nSTEPBAD " not in mout2:
-            open(mod, "w").write(mout2 + "VARIANT repaired\n")
+            open(mod, "a").write("VARIANT unrepaired\n")
     return dump, mod, None
 
 
@@ -218,8 +218,9 @@ def compare(prog, cfg, dumpfile, modelfile):
     d = parse_dump(dumpfile)
     runs, steps, stepbad = parse_model(modelfile)
     st = collections.Counter()
-    if steps.pop("variant", None) == "repaired":
-        st["programs_matching_repaired_addNext"] = 1
+    variant = steps.pop("variant", None)
+    if variant == "unrepaired":
+        st["programs_matching_unrepaired_addNext"] = 1
     st["programs"] = 1
     st["graph_nodes"] = d["nodes"]
     st["graph_edges"] = d["edges"]
@@ -257,7 +258,9 @@ def compare(prog, cfg, dumpfile, modelfile):
             st["steps_children_same_paths_other_order"] += (steps[(p, e)][3] if len(steps[(p, e)]) > 3 else 0)
             if bad:
                 det = [l for l in stepbad if l.startswith("STEPBAD %s %s " % (p, e))][:3]
-                add("step", "%s.%s" % (p, e), "%d of %d recorded expansions differ from the model's, e.g. %s" % (bad, n, " ;; ".join(det)[:1500]))
+                add("step", "%s.%s" % (p, e), "%d of %d recorded expansions differ from the model's%s, e.g. %s"
+                    % (bad, n, " (the implementation matches the addNext of BEFORE fix d51dcca: access paths no longer canonical)"
+                       if variant == "unrepaired" else "", " ;; ".join(det)[:1500]))
         for (p2, e2, seed), r in sorted(runs.items()):
             if (p2, e2) != (p, e):
                 continue
